@@ -19,9 +19,12 @@
 
    A message is abstract: names, records and option payloads are atoms with
    decidable equality; every record carries its uncompressed wire length so
-   that Msg.Len() without compression is computed by the model.  The
-   library's Msg.Len() WITH compression is an input ([clen]) — the theorems
-   quantify over it under "compression only shortens". *)
+   that Msg.Len() without compression is computed by the model.  Names are
+   ids into a per-case table of suffixes (hash-consed, case-sensitive like the
+   library's compression map), records carry their RDATA name layout, and the
+   library's Msg.Len() WITH compression is computed too ([msg_clen], the
+   compression-map walk of compressionLenSearch).  [shape_reply] stays generic
+   in the compressed length ([clen]); [shape_reply_c] plugs the computed one in. *)
 From Sdns Require Import Common.Base Gen.C06.
 Open Scope N_scope.
 
@@ -46,7 +49,10 @@ Definition opcode_notify : Z := 4%Z.
 Record hdr := mk_hdr { h_id : N; h_qr : bool; h_opcode : N; h_aa : bool; h_tc : bool; h_rd : bool;
                        h_ra : bool; h_z : bool; h_ad : bool; h_cd : bool; h_rcode : N }.
 Record quest := mk_quest { q_name : N; q_type : N; q_class : N; q_len : N }.
-Record rr := mk_rr { r_id : N; r_owner : N; r_type : N; r_class : N; r_ttl : N; r_len : N }.
+(* RDATA layout, as far as name compression sees it: runs of opaque bytes and domain names
+   (compressible per the library's `cdomain-name` tag, or not) *)
+Inductive seg := SFix (n : N) | SName (compress : bool) (name : N).
+Record rr := mk_rr { r_id : N; r_owner : N; r_type : N; r_class : N; r_ttl : N; r_len : N; r_rd : list seg }.
 (* one EDNS option: code, payload length, payload (big-endian value) *)
 Record eopt := mk_eopt { e_code : N; e_len : N; e_data : N }.
 (* an OPT record: version, class (= UDP size), DO, the other 15 flag bits, options *)
@@ -238,6 +244,84 @@ Definition xrr_len (x : xrr) : N := match x with XR r => r_len r | XO o => opt_l
 Definition msg_ulen (m : msg) : N :=
   header_len + sumN q_len (m_q m) + sumN r_len (m_an m) + sumN r_len (m_ns m) + sumN xrr_len (m_ex m).
 
+(* ---- miekg/dns name compression as Msg.Len() computes it ---- *)
+Definition max_compression_offset : N := 16384.   (* 2 << 13, dns.maxCompressionOffset *)
+(* name table: entry i (0-based) describes name id i+1 as (length of its first label, id of the
+   rest of the name); id 0 is the root.  Equal ids <=> equal (case-sensitive) names. *)
+Definition ntab := list (N * N).
+Definition nt_get (nt : ntab) (id : N) : option (N * N) :=
+  if id =? 0 then None else nth_error nt (N.to_nat (id - 1)).
+(* the suffixes of a name, longest first: (suffix id, length of its first label) *)
+Fixpoint chain (nt : ntab) (fuel : nat) (id : N) : list (N * N) :=
+  match fuel with
+  | O => []
+  | S f => match nt_get nt id with
+           | None => []
+           | Some (len, parent) => (id, len) :: chain nt f parent
+           end
+  end.
+Definition name_chain (nt : ntab) (id : N) : list (N * N) := chain nt (S (length nt)) id.
+Definition chain_wlen (ch : list (N * N)) : N := sumN (fun p => 1 + snd p) ch + 1.
+Definition name_wlen (nt : ntab) (id : N) : N := chain_wlen (name_chain nt id).
+
+(* compressionLenSearch(c, s, msgOff): walk the suffixes; the first one already in the map ends
+   the walk (Some = bytes before it); every suffix passed on the way is entered into the map
+   while it lies below the pointer range *)
+Fixpoint comp_search (cm : list N) (msgoff o : N) (ch : list (N * N)) : option N * list N :=
+  match ch with
+  | [] => (None, cm)
+  | (id, len) :: r =>
+      if existsb (N.eqb id) cm then (Some o, cm)
+      else comp_search (if msgoff + o <? max_compression_offset then id :: cm else cm) msgoff (o + 1 + len) r
+  end.
+
+(* domainNameLen(s, off, compression, compress) *)
+Definition name_clen (nt : ntab) (cm : list N) (off : N) (compress : bool) (id : N) : N * list N :=
+  match name_chain nt id with
+  | [] => (1, cm)
+  | ch =>
+      if compress || (off <? max_compression_offset) then
+        match comp_search cm off 0 ch with
+        | (Some o, cm') => if compress then (o + 2, cm') else (chain_wlen ch, cm')
+        | (None, cm') => (chain_wlen ch, cm')
+        end
+      else (chain_wlen ch, cm)
+  end.
+
+Definition seg_ulen (nt : ntab) (sg : seg) : N := match sg with SFix n => n | SName _ id => name_wlen nt id end.
+(* the generated (rr *T).len(off, compression): header, then the fields in order; [l] = length so far *)
+Fixpoint segs_clen (nt : ntab) (cm : list N) (off l : N) (sgs : list seg) : N * list N :=
+  match sgs with
+  | [] => (l, cm)
+  | SFix n :: r => segs_clen nt cm off (l + n) r
+  | SName cp id :: r => let '(k, cm') := name_clen nt cm (off + l) cp id in segs_clen nt cm' off (l + k) r
+  end.
+Definition rr_clen (nt : ntab) (cm : list N) (off : N) (r : rr) : N * list N :=
+  let '(k, cm') := name_clen nt cm off true (r_owner r) in segs_clen nt cm' off (k + 10) (r_rd r).
+Definition quest_clen (nt : ntab) (cm : list N) (off : N) (q : quest) : N * list N :=
+  let '(k, cm') := name_clen nt cm off false (q_name q) in (k + 4, cm').
+Definition xrr_clen (nt : ntab) (cm : list N) (off : N) (x : xrr) : N * list N :=
+  match x with XR r => rr_clen nt cm off r | XO o => (opt_len o, cm) | XReq o => (opt_len o, cm) end.
+(* msgLenWithCompressionMap: running length and map *)
+Definition fold_clen {A} (f : list N -> N -> A -> N * list N) (st : N * list N) (l : list A) : N * list N :=
+  fold_left (fun st x => let '(k, cm') := f (snd st) (fst st) x in (fst st + k, cm')) l st.
+Definition is_compressible (m : msg) : bool :=
+  (1 <? length (m_q m))%nat || negb (match m_an m, m_ns m, m_ex m with [], [], [] => true | _, _, _ => false end).
+(* Msg.Len() with Compress = true *)
+Definition msg_clen (nt : ntab) (m : msg) : N :=
+  if is_compressible m then
+    fst (fold_clen (xrr_clen nt) (fold_clen (rr_clen nt) (fold_clen (rr_clen nt)
+          (fold_clen (quest_clen nt) (header_len, []) (m_q m)) (m_an m)) (m_ns m)) (m_ex m))
+  else msg_ulen m.
+
+(* the table-derived uncompressed lengths agree with the library-measured ones the records carry *)
+Definition quest_wf (nt : ntab) (q : quest) : bool := q_len q =? name_wlen nt (q_name q) + 4.
+Definition rr_wf (nt : ntab) (r : rr) : bool :=
+  r_len r =? name_wlen nt (r_owner r) + 10 + sumN (seg_ulen nt) (r_rd r).
+Definition xrr_wf (nt : ntab) (x : xrr) : bool := match x with XR r => rr_wf nt r | _ => true end.
+Definition msg_wf (nt : ntab) (m : msg) : bool :=
+  forallb (quest_wf nt) (m_q m) && forallb (rr_wf nt) (m_an m) && forallb (rr_wf nt) (m_ns m) && forallb (xrr_wf nt) (m_ex m).
+
 (* udpOverflow(m, limit); [clen] = the library's Msg.Len() with compression *)
 Definition udp_overflow (m : msg) (clen limit : N) : bool :=
   if msg_ulen m <=? limit then false else limit <? clen.
@@ -266,6 +350,10 @@ Definition shape_pre (c : cfg) (w : wstate) (dn : msg) : msg :=
 Definition shape_reply (tr : transport) (c : cfg) (w : wstate) (dn : msg) (clen : N) : msg :=
   let m := shape_pre c w dn in
   norm (if is_udp tr && udp_overflow m clen (w_size w) then truncate m else m).
+
+(* WriteMsg with the compressed length computed by the model of the library *)
+Definition shape_reply_c (nt : ntab) (tr : transport) (c : cfg) (w : wstate) (dn : msg) : msg :=
+  shape_reply tr c w dn (msg_clen nt (shape_pre c w dn)).
 
 (* ---- replies built from the request ---- *)
 (* dns.Msg.SetReply on a fresh message, then Rcode *)
@@ -317,6 +405,10 @@ Definition wire_then_msg (tr : transport) (c : cfg) (hasdnssec : bool) (ede : op
   | Some r => norm r
   | None => shape_reply tr c w d clen
   end.
+
+Definition wire_then_msg_c (nt : ntab) (tr : transport) (c : cfg) (hasdnssec : bool) (ede : option eopt) (blen : N)
+           (w : wstate) (d : msg) : msg :=
+  wire_then_msg tr c hasdnssec ede blen (msg_clen nt (shape_pre c w d)) w d.
 
 (* EDNS.ServeDNS with everything downstream played by [dn] (None: nothing written);
    [wr] is what the wrapped writer does with the message it is handed *)
@@ -377,3 +469,12 @@ Definition serve_raw_gen (wr : wstate -> msg -> msg) (tr : transport) (c : cfg) 
 Definition serve_raw (tr : transport) (c : cfg) (h : T_Header) (body : option msg) (strict : bool)
            (dn : option msg) (clen : N) : option msg :=
   serve_raw_gen (fun w d => shape_reply tr c w d clen) tr c h body strict dn.
+
+(* the same ladders with the model's own compressed length *)
+Definition edns_serve_c (nt : ntab) (tr : transport) (c : cfg) (q : msg) (strict : bool) (dn : option msg) : option msg :=
+  edns_serve_gen (shape_reply_c nt tr c) tr c q strict dn.
+Definition serve_msg_c (nt : ntab) (tr : transport) (c : cfg) (q : msg) (strict : bool) (dn : option msg) : option msg :=
+  serve_msg_gen (shape_reply_c nt tr c) tr c q strict dn.
+Definition serve_raw_c (nt : ntab) (tr : transport) (c : cfg) (h : T_Header) (body : option msg) (strict : bool)
+           (dn : option msg) : option msg :=
+  serve_raw_gen (shape_reply_c nt tr c) tr c h body strict dn.
